@@ -23,6 +23,30 @@ Definition visible (keep : list string) (m : msg) : bool :=
   | Some s => existsb (String.eqb s) keep
   end.
 
+(* slice_parties(ignore_receivers=False), as truncate_invisible_packets (language/parse/io.py) calls it before a protocol run: a message
+   "sender:recipient:<nt>" is removed when it has a recipient and NEITHER its sender NOR its recipient is kept; a message without recipient
+   (exported with the recipient text "None") always stays *)
+Fixpoint after_colon (s : string) : option string :=
+  match s with
+  | EmptyString => None
+  | String c s' => if Ascii.eqb c ":"%char then Some s' else after_colon s'
+  end.
+
+Definition recipient_of (m : msg) : option string :=
+  match after_colon m with Some r => sender_of r | None => None end.
+
+Definition visible_io (keep : list string) (m : msg) : bool :=
+  match sender_of m, recipient_of m with
+  | Some s, Some r =>
+      if String.eqb r "None" then true
+      else existsb (String.eqb s) keep || existsb (String.eqb r) keep
+  | _, _ => true
+  end.
+
+(* the two modes of slice_parties: (true, keep) = ignore_receivers=True, (false, keep) = ignore_receivers=False *)
+Definition vis_mode (k : bool * list string) : msg -> bool :=
+  if fst k then visible (snd k) else visible_io (snd k).
+
 Definition alts (k : list mre) : mre := fold_right (RAlt _) (REmp _) k.
 Definition cats (k : list mre) : mre := fold_right (RCat _) (REps _) k.
 
